@@ -117,6 +117,8 @@ struct World {
     under_valgrind: bool,
     reuse_canary: Option<(Arena, u8)>,
     reuse_canaries_checked: u64,
+    foreign_pages: Vec<(Arena, u8)>,
+    foreign_pages_checked: u64,
 }
 
 fn exec_anon_pages() -> BTreeSet<usize> {
@@ -197,6 +199,8 @@ pub fn run(ctx: &Ctx) {
         under_valgrind: ctx.get_u("valgrind", 0) == 1,
         reuse_canary: None,
         reuse_canaries_checked: 0,
+        foreign_pages: Vec::new(),
+        foreign_pages_checked: 0,
     };
     // warm-up lifetime so that lazily created process state (thread-local storage, allocator arenas)
     // exists before the baselines are taken
@@ -542,8 +546,21 @@ fn lifetime(w: &mut World, mons: &Mons, p: &Plan, rng: &mut Rng) -> (Verdict, St
                         *viol = Some(("c03:executable-mapping-appeared-that-is-not-the-trampoline".into(), J::new().x("page", *pg)));
                     }
                 }
-                if !d.vanished.is_empty() {
-                    *viol = Some(("c03:executable-mapping-vanished".into(), J::new().x("page", d.vanished[0])));
+                // a page of a mapping the library itself created earlier in this lifetime may go (that is C12's
+                // business); any other executable page vanishing is a stray unmap
+                if let Some(pg) = d.vanished.iter().find(|pg| !lib_maps.iter().any(|(m0, l)| **pg >= *m0 && **pg < m0 + page_ceil(*l))) {
+                    *viol = Some(("c03:executable-mapping-vanished".into(), J::new().x("page", *pg)));
+                }
+                // if the library has already given back one of its trampolines while the injector lives, the
+                // address is no longer its own: a foreign executable page placed there must survive
+                for &(m0, l) in lib_maps.iter() {
+                    if w.foreign_pages.iter().all(|(a, _)| a.base != m0) && maps::is_free(m0, page_ceil(l)) {
+                        if let Some(ar) = Arena::map_at(m0, PAGE, RWX) {
+                            ar.fill(0xC3);
+                            ar.protect_all(RX);
+                            w.foreign_pages.push((ar, 0xC3));
+                        }
+                    }
                 }
                 *prev_snap = Some(snap);
             }
@@ -677,6 +694,14 @@ fn lifetime(w: &mut World, mons: &Mons, p: &Plan, rng: &mut Rng) -> (Verdict, St
         }
     }
     if mons.c03 {
+        for (ar, pat) in w.foreign_pages.drain(..) {
+            let ok = maps::read_vec(ar.base, PAGE).map(|b| b.iter().all(|x| *x == pat)).unwrap_or(false);
+            if !ok {
+                std::mem::forget(ar);
+                return (Verdict::Violated, "c03:foreign-executable-page-unmapped-or-overwritten".into(), detail);
+            }
+            w.foreign_pages_checked += 1;
+        }
         let snap = maps::snapshot();
         w.snapshots += 1;
         let d = maps::diff(w.base_snap.as_ref().unwrap(), &snap);
